@@ -12,7 +12,7 @@ Line protocol of the C14 model (sums are exact integers: `M := Int`).
   C14 mergedtrim <req> <parts>   top-level composite only: finalize (fold compMergeFruits (parts.map collectSegComposite)) — per-segment eviction and merge-time trim above 2*size
   C14 mergedevict <req> <parts>   finalize (fold merge (parts.map collectSegEvict)) — eviction at every composite node, no terms cut
   C14 mergedfull <req> <parts>   finalize (mergeFruits (parts.map collectSegFull)) — terms cut and composite eviction
-  C14 keyasc <req> <parts>   top-level terms, _key ascending or descending, min_doc_count ≤ 1, no terms below: `same` when the truncated
+  C14 keyasc <req> <parts>   (several top-level nodes / filter parents: every _key-ordered terms node reached through `both` and `filter`, C14_request_tree_decomposes) top-level terms; _key ascending or descending, or any order with at most one non-empty part (C14_terms_single_segment_exact_any_schedule); min_doc_count ≤ 1, no terms below: `same` when the truncated
                              merged segments show the buckets and sum_other_doc_count of evalAggPV, `diff …` otherwise, `n/a` when not applicable
   C14 limit  <n> <req> <parts>   finalizeGuarded n on the merged tree: `ok <res>` | `err <count>`
   C14 defaults <size|_> <segment_size|_> <min_doc_count|_>   size, segment_size, min_doc_count, default bucket limit
@@ -159,6 +159,23 @@ def showRes : (r : Req) → Res Int r → String
 def merged (r : Req) (parts : List (List Doc)) : Inter Int r :=
   mergeFruits r (parts.map (collectSeg r))
 
+/-- C14_request_tree_decomposes + the `_key`-order theorems: walk the top-level nodes (`both`) and filter
+parents; for every `_key`-ordered terms node found there with the checked hypotheses compare buckets and
+sum_other_doc_count of the truncated merged result `x` with the direct computation `y`.
+`none`: no applicable node; `some true`: all applicable nodes agree. -/
+def keyCheck : (r : Req) → Res Int r → Res Int r → Option Bool
+  | .both a b, x, y =>
+    match keyCheck a x.1 y.1, keyCheck b x.2 y.2 with
+    | Option.none, o => o
+    | o, Option.none => o
+    | some u, some v => some (u && v)
+  | .filter _ _ sub, x, y => keyCheck sub x.2 y.2
+  | .terms p sub, x, y =>
+    if (p.order == .keyAsc || p.order == .keyDesc) && decide (p.size ≤ p.segSize) && decide (p.minDocCount ≤ 1) && sub.cutFree then
+      some (showRes (.terms p sub) (x.1, x.2.1, 0) == showRes (.terms p sub) (y.1, y.2.1, 0))
+    else Option.none
+  | _, _, _ => Option.none
+
 def handle : List String → String
   | ["spec", rq, ps] =>
     match parseReqStr rq, parseParts ps with
@@ -202,12 +219,17 @@ def handle : List String → String
     -- segments show the buckets of the direct computation
     match parseReqStr rq, parseParts ps with
     | some (.terms p sub), some parts =>
-      if (p.order == .keyAsc || p.order == .keyDesc) && decide (p.size ≤ p.segSize) && decide (p.minDocCount ≤ 1) && sub.cutFree then
+      if ((p.order == .keyAsc || p.order == .keyDesc) || decide ((parts.filter (fun q => !q.isEmpty)).length ≤ 1)) && decide (p.size ≤ p.segSize) && decide (p.minDocCount ≤ 1) && sub.cutFree then
         let a : Res Int (.terms p sub) := finalize (.terms p sub) (merged (.terms p sub) parts)
         let b : Res Int (.terms p sub) := evalAggPV Int (.terms p sub) parts.flatten
         if showRes (.terms p sub) (a.1, a.2.1, 0) == showRes (.terms p sub) (b.1, b.2.1, 0) then "same"
         else "diff " ++ showRes (.terms p sub) a ++ " " ++ showRes (.terms p sub) b
       else "n/a"
+    | some r, some parts =>
+      match keyCheck r (finalize r (merged r parts)) (evalAggPV Int r parts.flatten) with
+      | some true => "same"
+      | some false => "diff " ++ showRes r (finalize r (merged r parts)) ++ " " ++ showRes r (evalAggPV Int r parts.flatten)
+      | Option.none => "n/a"
     | _, _ => "n/a"
   | ["limit", n, rq, ps] =>
     match n.toNat?, parseReqStr rq, parseParts ps with
